@@ -334,3 +334,55 @@ Example C03_full_raise_nonvacuous :
   full_plus (fun g : nat => g) Nat.leb Nat.ltb Nat.leb Nat.add 10 fx_mate fx_mut 3 3 3 fx_h0
             [V.DRandom 0] [0] [[0]] = FRaise V.ValueError.
 Proof. vm_compute. reflexivity. Qed.
+
+(* ---------------- the correspondence runner validates the hypotheses ---------------- *)
+(* If Corr.C03_Full.check accepts a recorded run of the implementation, the hypotheses of the theorems
+   above hold for that run (initial heap, mate returns two different objects in every recorded call,
+   selection contract), the model consumed exactly the recorded draws and operator calls, and the state
+   compared with the implementation is the result of full_simple / full_plus / full_comma. *)
+From Coq Require Import PrimFloat.
+From DV Require Import Base.Corr Corr.C03 Proofs.C03_Corr Corr.C03_Full Proofs.C03_FullCorr.
+
+Theorem C03_full_corr_validates : forall k ngen p w mu lambda_ cxpb mutpb objs pop draws script sels oc ol os ofin oi,
+  check (CFull k ngen p w mu lambda_ cxpb mutpb objs pop draws script sels oc ol os ofin oi) = true ->
+  finit_ok (ev_fun p) (heap_of objs) pop /\
+  (forall j x y, V.ret_distinct (V.ma_r1 (mate_of script j x y)) (V.ma_r2 (mate_of script j x y))) /\
+  sels_ok k (length pop) mu (Z.to_nat lambda_) (map os_idx sels) /\
+  length sels = ngen /\
+  exists e, full_kind p w script k mu lambda_ cxpb mutpb (heap_of objs) draws pop (map os_idx sels) = FOk e /\
+            state_matches (fview e) oc ol os ofin = true /\ f_dr e = [] /\ f_kc e = length script /\ oi = true.
+Proof. exact check_full_validates. Qed.
+Print Assumptions C03_full_corr_validates.
+
+(* End to end: for every recorded run of the implementation the runner accepts, the state of the
+   composed model that agrees with everything observed satisfies the invariants; nothing is assumed about
+   what varAnd / varOr returned. *)
+Theorem C03_full_accepted_simple_run : forall ngen p w mu lambda_ cxpb mutpb objs pop draws script sels oc ol os ofin oi,
+  check (CFull FSimple ngen p w mu lambda_ cxpb mutpb objs pop draws script sels oc ol os ofin oi) = true ->
+  exists e, full_simple (ev_fun p) (wfle w) PrimFloat.ltb (mate_of script) (mut_of script) cxpb mutpb
+                        (heap_of objs) draws pop (map os_idx sels) = FOk e /\
+    InvC (ev_fun p) (fview e) /\ InvH (ev_fun p) (wfle w) (fview e) /\
+    length (f_log e) = S ngen /\ length (f_pop e) = length pop /\
+    state_matches (fview e) oc ol os ofin = true.
+Proof. exact accepted_full_simple_run. Qed.
+Print Assumptions C03_full_accepted_simple_run.
+
+Theorem C03_full_accepted_plus_run : forall ngen p w mu lambda_ cxpb mutpb objs pop draws script sels oc ol os ofin oi,
+  check (CFull FPlus ngen p w mu lambda_ cxpb mutpb objs pop draws script sels oc ol os ofin oi) = true ->
+  exists e, full_plus (ev_fun p) (wfle w) PrimFloat.ltb PrimFloat.leb PrimFloat.add 1%float (mate_of script) (mut_of script)
+                      lambda_ cxpb mutpb (heap_of objs) draws pop (map os_idx sels) = FOk e /\
+    InvC (ev_fun p) (fview e) /\ InvH (ev_fun p) (wfle w) (fview e) /\
+    length (f_log e) = S ngen /\ length (f_pop e) = match ngen with 0 => length pop | _ => mu end /\
+    state_matches (fview e) oc ol os ofin = true.
+Proof. exact accepted_full_plus_run. Qed.
+Print Assumptions C03_full_accepted_plus_run.
+
+Theorem C03_full_accepted_comma_run : forall ngen p w mu lambda_ cxpb mutpb objs pop draws script sels oc ol os ofin oi,
+  check (CFull FComma ngen p w mu lambda_ cxpb mutpb objs pop draws script sels oc ol os ofin oi) = true ->
+  exists e, full_comma (ev_fun p) (wfle w) PrimFloat.ltb PrimFloat.leb PrimFloat.add 1%float (mate_of script) (mut_of script)
+                       mu lambda_ cxpb mutpb (heap_of objs) draws pop (map os_idx sels) = FOk e /\
+    InvC (ev_fun p) (fview e) /\ InvH (ev_fun p) (wfle w) (fview e) /\
+    length (f_log e) = S ngen /\ length (f_pop e) = match ngen with 0 => length pop | _ => mu end /\
+    state_matches (fview e) oc ol os ofin = true.
+Proof. exact accepted_full_comma_run. Qed.
+Print Assumptions C03_full_accepted_comma_run.
